@@ -4,7 +4,8 @@ From Coq Require Import ZArith NArith Bool List.
 From ZV.Index Require Import Window Overflow.
 From ZV.Det Require Import ResetModel ResetProofs CwkspClean CwkspProofs RowSalt RowSaltProofs OptStats OptStatsProofs
                            MtPartition MtProofs FrameRel FrameRelProofs CwkspRefine StreamPartition StreamPartitionProofs
-                           BlockState BlockStateProofs DictMode DictModeProofs.
+                           BlockState BlockStateProofs DictMode DictModeProofs
+                           ApiState ApiStateProofs RawFallback RawFallbackProofs WindowContigProofs.
 Import ListNotations.
 Local Open Scope Z_scope.
 
@@ -186,3 +187,97 @@ Theorem dict_attach_is_downward_closed : forall cd p1 p2 pref fw,
   dict_mode cd p2 pref fw = DAttach -> dict_mode cd p1 pref fw = DAttach.
 Proof. exact attach_is_downward_closed. Qed.
 Print Assumptions dict_attach_is_downward_closed.
+
+(* ---------------------------------------------------------------------------------------------------------------
+   round 2: the session-level API state, the block emission decision, the placement of the input *)
+
+(* for EVERY sequence of API calls the sequence collector of ZSTD_generateSequences is off again when the call returns *)
+Theorem api_collector_off_after_every_history : forall ops, a_collect (arun a_fresh ops) = false.
+Proof. exact collector_off_after_every_history. Qed.
+Print Assumptions api_collector_off_after_every_history.
+
+(* ... which was false before 74b576b (finding generateSequences-collector-survives) *)
+Theorem api_collector_survived_before_fix :
+  a_collect (arun_old a_fresh [AGenSeq; AResetSession; AResetParams; ACompress2]) = true.
+Proof. exact collector_survived_before_fix. Qed.
+Print Assumptions api_collector_survived_before_fix.
+
+(* ZSTD_CCtx_reset(session_only) + ZSTD_CCtx_reset(parameters) after ANY history of API calls: the state that selects
+   parameters, dictionaries, prefix and side channels of the next frames is that of a new context *)
+Theorem api_full_reset_erases_history : forall hist k,
+  arun a_fresh (hist ++ [AResetSession; AResetParams] ++ k) = arun a_fresh k.
+Proof. exact full_reset_erases_api_history. Qed.
+Print Assumptions api_full_reset_erases_history.
+
+(* for every history: a digested local dictionary is cctx->cdict and belongs to the loaded content *)
+Theorem api_local_cdict_is_the_cdict : forall ops c,
+  a_lcd (arun a_fresh ops) = Some c -> a_cdict (arun a_fresh ops) = Some c /\ a_ldict (arun a_fresh ops) = Some (fst c).
+Proof. intros ops c. exact (local_cdict_is_the_cdict ops c). Qed.
+Print Assumptions api_local_cdict_is_the_cdict.
+
+(* the ONLY call that can leave the digested local dictionary behind the parameters is a ZSTD_CCtx_setParameter that
+   changes them while it exists (ZSTD_CCtx_setParametersUsingCCtxParams is refused then): without such a call, for every
+   history, the frame uses (loaded content, CURRENT parameters) *)
+Theorem api_local_cdict_follows_parameters : forall ops d,
+  harmless_run a_fresh ops -> a_ldict (arun a_fresh ops) = Some d -> a_prefix (arun a_fresh ops) = None ->
+  frame_view (arun a_fresh ops) = VCDict d (a_params (arun a_fresh ops)).
+Proof. exact frame_uses_current_parameters. Qed.
+Print Assumptions api_local_cdict_follows_parameters.
+
+Example api_harmless_satisfiable :
+  harmless_run a_fresh [ASet true 5; ALoad 7; ACompress2; ASet true 5; AStreamCall; AStreamEnd; AGenSeq] /\
+  frame_view (arun a_fresh [ASet true 5; ALoad 7; ACompress2; ASet true 5; AStreamCall; AStreamEnd; AGenSeq]) = VCDict 7 5.
+Proof. simpl. repeat split; auto. Qed.
+
+(* the recorded finding localdict-cdict-stale-params *)
+Theorem api_local_cdict_stale_after_setParameter :
+  frame_view (arun a_fresh [ALoad 7; ASet true 1; ACompress2; ASet true 2]) = VCDict 7 1 /\
+  frame_view (arun a_fresh [ALoad 7; ASet true 2]) = VCDict 7 2.
+Proof. exact local_cdict_stale_after_setParameter. Qed.
+Print Assumptions api_local_cdict_stale_after_setParameter.
+
+(* one block, any capacities: a tighter buffer changes the bytes of an emitted block ONLY by storing it raw where a
+   roomy buffer compresses it, and only for capacities in [srcSize + 3, need + 3) *)
+Theorem block_differs_only_by_raw_fallback : forall csize need srcSize strat cap big,
+  0 <= csize <= need -> 0 <= srcSize -> need + blockHeaderSize <= big -> srcSize + blockHeaderSize <= big ->
+  fst (emit_block csize need srcSize strat cap) <> 0 ->
+  emit_block csize need srcSize strat cap <> emit_block csize need srcSize strat big ->
+  emit_block csize need srcSize strat cap = (1, srcSize + blockHeaderSize) /\
+  fst (emit_block csize need srcSize strat big) = 2 /\
+  srcSize + blockHeaderSize <= cap < need + blockHeaderSize.
+Proof. exact differing_success_is_the_raw_fallback. Qed.
+Print Assumptions block_differs_only_by_raw_fallback.
+
+(* blocks whose minimal gain (srcSize >> 6) + 2 covers the slack K of the entropy stage do not depend on the capacity *)
+Theorem block_with_enough_gain_capacity_independent : forall K csize need srcSize strat cap big,
+  0 <= csize <= need -> 0 <= srcSize -> need <= csize + K -> K <= minGain srcSize strat ->
+  need + blockHeaderSize <= big -> srcSize + blockHeaderSize <= big ->
+  fst (emit_block csize need srcSize strat cap) <> 0 ->
+  emit_block csize need srcSize strat cap = emit_block csize need srcSize strat big.
+Proof. exact blocks_with_enough_gain_are_immune. Qed.
+Print Assumptions block_with_enough_gain_capacity_independent.
+
+Example block_hypotheses_satisfiable :
+  (0 <= 900 <= 911) /\ (911 <= 900 + 11) /\ (11 <= minGain 1000 3) /\ (emit_block 900 911 1000 3 1003 = emit_block 900 911 1000 3 5000).
+Proof. repeat split; try reflexivity; vm_compute; congruence. Qed.
+
+(* the recorded finding block-raw-fallback-outcap (numbers of the 37-byte repro) *)
+Theorem block_raw_fallback_depends_on_capacity :
+  emit_block 32 41 37 1 (50 - 6) = (2, 35) /\ emit_block 32 41 37 1 (46 - 6) = (1, 40) /\ emit_block 32 41 37 1 (45 - 6) = (0, 0).
+Proof. exact raw_fallback_depends_on_capacity. Qed.
+Print Assumptions block_raw_fallback_depends_on_capacity.
+
+(* ZSTD_c_deterministicRefPrefix (forceNonContiguous): for every window and every two placements of the input that do not
+   overlap the old segment, the finders see the same window *)
+Theorem window_forced_noncontiguous_ignores_placement : forall w s1 s2 m, m <> 0 ->
+  clear_of_old_segment w s1 m -> clear_of_old_segment w s2 m ->
+  geom (fst (window_update w s1 m true)) s1 = geom (fst (window_update w s2 m true)) s2.
+Proof. exact forced_noncontiguous_ignores_placement. Qed.
+Print Assumptions window_forced_noncontiguous_ignores_placement.
+
+(* the recorded finding dict-contiguous-with-src: without the switch the placement decides prefix vs extDict *)
+Theorem window_placement_matters_without_the_switch :
+  geom (fst (window_update w_dict 6000 500 false)) 6000 <> geom (fst (window_update w_dict 9000 500 false)) 9000 /\
+  geom (fst (window_update w_dict 6000 500 true)) 6000 = geom (fst (window_update w_dict 9000 500 true)) 9000.
+Proof. exact placement_matters_without_the_switch. Qed.
+Print Assumptions window_placement_matters_without_the_switch.
